@@ -1,6 +1,6 @@
 (* C01 property theorems: statements only. *)
 From Coq Require Import List String Permutation Sorted.
-From PAFC01 Require Import ModelTree Sorting Proofs Proofs2 Proofs3.
+From PAFC01 Require Import ModelTree Sorting Proofs Proofs2 Proofs3 Proofs4 Model Proofs5.
 Import ListNotations.
 
 (* the advertised parameter order is strictly increasing in parameter id, has no repeats, lists
@@ -77,8 +77,135 @@ Theorem C01_paths_resolve : forall (V : Type) (n : node V), wf V n ->
   forall p q, In (p, q) (walk V n) -> prior_at V p n = Some q.
 Proof. exact walk_prior_at. Qed.
 
+(* ---- HEADLINE: "building an instance from a vector puts the i-th value at the i-th advertised path".
+   wf2 = dictionary keys distinct at every level, and the two operand attributes of an arithmetic prior
+   have different names unless they are the same object (p * p).  When the i-th advertised path goes
+   through Model / Collection attributes only, looking it up in the built instance gives the i-th value *)
+Theorem C01_ith_value : forall (V : Type) (bin : binop -> V -> V -> V) (n : node V) (vec : list V)
+    (i : nat) (dp : path) (dv : V),
+  wf2 V n -> List.length vec = prior_count V n -> i < prior_count V n ->
+  node_at V (nth i (unique_prior_paths V n) dp) n <> None ->
+  lookup V (nth i (unique_prior_paths V n) dp) (inst_from_vector V bin n vec) = Some (IV (nth i vec dv)).
+Proof. exact ith_value. Qed.
+
+(* ... when it ends in the member k (position j) of a tuple parameter, the tuple built at the parent path
+   has the i-th value at index j *)
+Theorem C01_ith_value_tuple : forall (V : Type) (bin : binop -> V -> V -> V) (n : node V) (vec : list V)
+    (i : nat) (dp : path) (dv : V) (p1 : path) (k : string) (ms : list (string * (nat * node V))) (j : nat) (c : node V),
+  wf2 V n -> List.length vec = prior_count V n -> i < prior_count V n ->
+  nth i (unique_prior_paths V n) dp = p1 ++ [k] ->
+  node_at V p1 n = Some (NTuple ms) ->
+  Permutation (map (fun m => fst (snd m)) ms) (seq 0 (List.length ms)) ->
+  In (k, (j, c)) ms ->
+  exists vs, lookup V p1 (inst_from_vector V bin n vec) = Some (ITup vs) /\
+  List.length vs = List.length ms /\ nth j vs IMissing = IV (nth i vec dv).
+Proof. exact ith_value_tuple. Qed.
+
+(* ... and these are the only possibilities: every advertised path reaches, through Model / Collection
+   attributes only, either the parameter itself or a tuple / arithmetic node containing the rest of the path *)
+Theorem C01_paths_classified : forall (V : Type) (n : node V), wf2 V n ->
+  forall p q, In (p, q) (walk V n) ->
+  exists p1 p2 c, p = p1 ++ p2 /\ node_at V p1 n = Some c /\
+  ((c = NPrior q /\ p2 = []) \/ (opaque V c = true /\ In (p2, q) (walk V c))).
+Proof. exact walk_classify. Qed.
+
+(* `paths` lists every (path, parameter) pair of the model exactly once, stably ordered by parameter id, and
+   contains the unique paths; each entry resolves to the parameter it is listed for *)
+Theorem C01_paths : forall (V : Type) (n : node V),
+  Permutation (path_priors V n) (walk V n) /\
+  StronglySorted le (map snd (path_priors V n)) /\
+  paths V n = map fst (path_priors V n) /\
+  (forall p, In p (unique_prior_paths V n) -> In p (paths V n)).
+Proof. exact paths_facts. Qed.
+
+Theorem C01_paths_resolve2 : forall (V : Type) (n : node V), wf2 V n ->
+  forall p q, In (p, q) (path_priors V n) -> prior_at V p n = Some q.
+Proof. exact paths_resolve. Qed.
+
+(* routes under the weaker hypothesis (models containing p * p are covered) *)
+Theorem C01_routes2 : forall (V : Type) (bin : binop -> V -> V -> V) (n : node V) (vec : list V),
+  wf2 V n -> List.length vec = prior_count V n ->
+  inst_from_paths V bin n (combine (unique_prior_paths V n) vec) = inst_from_vector V bin n vec.
+Proof. exact path_route2. Qed.
+
+Theorem C01_routes2_checkable : forall (V : Type) (veqb : V -> V -> bool),
+  (forall a b, veqb a b = true -> a = b) ->
+  forall (bin : binop -> V -> V -> V) (n : node V) (vec : list V),
+  wfb2 V veqb n = true -> List.length vec = prior_count V n ->
+  inst_from_paths V bin n (combine (unique_prior_paths V n) vec) = inst_from_vector V bin n vec.
+Proof. exact (fun V veqb S bin n vec H => path_route2 V bin n vec (wfb2_sound V veqb S n H)). Qed.
+
+(* values supplied by ANY paths (any of the paths of a shared parameter, in any order, several paths per
+   parameter): the instance is the vector instance as soon as the path dictionary assigns the i-th value to
+   the i-th parameter; and the LAST entry resolving to a parameter is the one that counts *)
+Theorem C01_routes_any_paths : forall (V : Type) (bin : binop -> V -> V -> V) (n : node V)
+    (pv : list (path * V)) (vec : list V),
+  wf2 V n -> List.length vec = prior_count V n ->
+  (forall i, i < prior_count V n -> path_args V n pv (nth i (ordered_ids V n) 0) = nth_error vec i) ->
+  inst_from_paths V bin n pv = inst_from_vector V bin n vec.
+Proof. exact path_route_gen. Qed.
+
+Theorem C01_path_last_wins : forall (V : Type) (n : node V) (pv1 pv2 : list (path * V)) (p : path) (v : V) (q : nat),
+  prior_at V p n = Some q ->
+  (forall p' v', In (p', v') pv2 -> prior_at V p' n <> Some q) ->
+  path_args V n (pv1 ++ (p, v) :: pv2) q = Some v.
+Proof. exact path_args_last. Qed.
+
+Theorem C01_routes_chosen_paths : forall (V : Type) (bin : binop -> V -> V -> V) (n : node V)
+    (ps : list path) (vec : list V),
+  wf2 V n -> List.length vec = prior_count V n -> List.length ps = prior_count V n ->
+  (forall j dp, j < prior_count V n -> prior_at V (nth j ps dp) n = Some (nth j (ordered_ids V n) 0)) ->
+  inst_from_paths V bin n (combine ps vec) = inst_from_vector V bin n vec.
+Proof. exact path_route_chosen. Qed.
+
+(* frame: two vectors that differ only in entry i build instances that agree at every structural place
+   whose sub-model does not contain parameter i ("leaves everything else untouched") *)
+Theorem C01_frame : forall (V : Type) (bin : binop -> V -> V -> V) (n c : node V) (p : path)
+    (vec vec' : list V) (i : nat),
+  wf2 V n -> List.length vec = prior_count V n -> List.length vec' = prior_count V n ->
+  (forall j, j <> i -> nth_error vec j = nth_error vec' j) ->
+  node_at V p n = Some c -> ~ In (nth i (ordered_ids V n) 0) (prior_ids V c) ->
+  lookup V p (inst_from_vector V bin n vec) = lookup V p (inst_from_vector V bin n vec').
+Proof. exact frame. Qed.
+
+(* an instance depends only on the values given to the model's own parameters *)
+Theorem C01_inst_ext : forall (V : Type) (bin : binop -> V -> V -> V) (a1 a2 : nat -> option V) (n : node V),
+  wf2 V n -> (forall q, In q (prior_ids V n) -> a1 q = a2 q) -> inst V bin a1 n = inst V bin a2 n.
+Proof. exact inst_ext2. Qed.
+
+(* unit-vector route (value_for q u = what prior q returns for unit value u): it is the vector route applied
+   to vector_from_unit_vector, and the i-th unit value pushed through the i-th prior is found at every
+   structural place of parameter i *)
+Theorem C01_unit_route : forall (V : Type) (bin : binop -> V -> V -> V) (value_for : nat -> V -> V)
+    (n : node V) (u : list V),
+  inst_from_unit V bin value_for n u = inst_from_vector V bin n (vec_from_unit V value_for n u) /\
+  (List.length u = prior_count V n -> List.length (vec_from_unit V value_for n u) = prior_count V n).
+Proof.
+  exact (fun V bin vf n u => conj (unit_route V bin vf n u)
+           (fun L => eq_trans (vmap2_length V vf (ordered_ids V n) u (eq_trans L (eq_sym (ordered_ids_length V n))))
+                              (ordered_ids_length V n))).
+Qed.
+
+Theorem C01_unit_placement : forall (V : Type) (bin : binop -> V -> V -> V) (value_for : nat -> V -> V)
+    (n : node V) (u : list V) (i : nat) (p : path) (dv : V),
+  List.length u = prior_count V n -> i < prior_count V n ->
+  node_at V p n = Some (NPrior (nth i (ordered_ids V n) 0)) ->
+  lookup V p (inst_from_unit V bin value_for n u) = Some (IV (value_for (nth i (ordered_ids V n) 0) (nth i u dv))).
+Proof. exact unit_placement. Qed.
+
+(* known finding arith-member-in-tuple: the code as it is today drops tuple members that are arithmetic
+   priors (Model.prune; the full statement is refuted in Witness.tuple_arith_member_refuted).  Under the
+   explicit guard "every tuple member is a parameter or a constant" the current-code view IS the model *)
+Theorem C01_tuple_members_partial : forall n : fnode, simple_members n = true -> prune n = n.
+Proof. exact prune_id. Qed.
+
 Print Assumptions C01_order.
 Print Assumptions C01_routes.
 Print Assumptions C01_ith_path.
 Print Assumptions C01_placement.
 Print Assumptions C01_tuple.
+Print Assumptions C01_ith_value.
+Print Assumptions C01_ith_value_tuple.
+Print Assumptions C01_routes_any_paths.
+Print Assumptions C01_frame.
+Print Assumptions C01_unit_placement.
